@@ -53,17 +53,17 @@ func (w *World) Connect() *SrvConn {
 	c.Mon.CheckReplies = true
 	w.Conns = append(w.Conns, c)
 	cur := simrt.Current()
-	saved := cur.Local["inherit.conn"]
-	cur.Local["inherit.conn"] = c
+	saved := cur.Local.Get("inherit.conn")
+	cur.Local.Set("inherit.conn", c)
 	c.Handle = simrt.GoNamed(fmt.Sprintf("srv%d", id), func() {
 		simrt.Current().Role = "server"
 		w.Srv.Handle(c.Net.B, c.Net.B)
 		c.HandleReturned = true
 	})
 	if saved == nil {
-		delete(cur.Local, "inherit.conn")
+		cur.Local.Del("inherit.conn")
 	} else {
-		cur.Local["inherit.conn"] = saved
+		cur.Local.Set("inherit.conn", saved)
 	}
 	return c
 }
